@@ -384,6 +384,11 @@ func (state *inflate) readLitDistLens(ctx *dynamicHeaderReader, hdist, hlit int)
 					count = ctx.distCount[:]
 				}
 
+				if curr >= end {
+					// the run crossed into the distance lengths and overruns them
+					err = errInvalidBlock
+					goto END
+				}
 				huffs[curr] = repCode
 				count[repCode.Length()]++
 				prev = curr
